@@ -71,7 +71,7 @@ impl DeclVisitor for TVis {
         }
         self.out.insert(T::rust_name(), res);
     }
-    fn pair<W: V, R: V>(&mut self, _h: &str, _w: usize, _r: usize, _l: bool) {}
+    fn pair<W: V, R: V>(&mut self, _h: &str, _w: usize, _r: usize, _l: bool, _p: Vec<W>) {}
     fn ext<E1: V, E2: V>(&mut self, _n: usize) {}
 }
 
